@@ -1,6 +1,7 @@
 import EupsModel.Lemmas.DepsTotal
 import EupsModel.Lemmas.DepsPinned
 import EupsModel.Lemmas.DepsSound
+import EupsModel.Lemmas.DepsPinnedWalk
 /-! C13 — dependency listings are complete and ordered; `uses` is their inverse.
 Property theorems only.  Models: `Model/Topo.lean`, `Model/Deps.lean`; lemmas: `Lemmas/Topo.lean`,
 `Lemmas/TopoSpec.lean`, `Lemmas/TopoTotal.lean`, `Lemmas/Deps.lean`, `Lemmas/DepsFuel.lean`, `Lemmas/DepsTopo.lean`,
@@ -542,6 +543,14 @@ theorem C13_unsetup_cycle_pinned_witness :
 
 /-- non-vacuity of `C13_unsetup_only_removes`: `d32` has an unsetup line (inside a cycle) and all its table files -/
 example : (∀ d ∈ d32.decls, d.tableMissing = false) ∧ ¬ NoUnsetup d32 := by decide
+
+/-- **Pinned tree, D32, for every fuel** (no recursion limit would have been enough): on `w32` — the database of
+`d32` written with code points — the unguarded walk from `a 1` returns for no amount of fuel and at no depth, while the
+repaired listing returns `[b]`. -/
+theorem C13_unsetup_cycle_pinned_all_fuel :
+    (∀ fuel depth, depsOfPinned w32 fuel [] pA true depth St.empty = none) ∧
+    ∃ out, getDependentProducts w32 w32.fuel pA true false = .ok out :=
+  ⟨pinned_none, _, rfl⟩
 
 /-- **Pinned tree, D18**: `C13_topological_total` was false before the repair of `Product.__lt__` — on this
 database (no unsetup lines) the layer that `topologicalSort` sorts for the root `a 1` holds the placeholders
